@@ -87,15 +87,21 @@ static CO_ERR COTPdoIdWrite(struct CO_OBJ_T *obj, struct CO_NODE_T *node, void *
     nmt     = &node->Nmt;
     pcomidx = CO_GET_IDX(obj->Key);
     if (pcomidx <= COT_OBJECT_RPDO + COT_OBJECT_NUM) {
-        rpdo = node->RPdo;
         num  = pcomidx & COT_OBJECT_NUM;
+        if (num < CO_RPDO_N) {
+            /* records behind the available RPDOs are plain values */
+            rpdo = node->RPdo;
+        }
     } else {
         /* PDO with RTR allowed is not supported */
         if ((nid & CO_TPDO_COBID_REMOTE) == 0) {
             return (CO_ERR_OBJ_RANGE);
         }
-        tpdo = node->TPdo;
         num  = pcomidx & COT_OBJECT_NUM;
+        if (num < CO_TPDO_N) {
+            /* records behind the available TPDOs are plain values */
+            tpdo = node->TPdo;
+        }
     }
 
     (void)uint32->Read(obj, node, &oid, sizeof(oid));
